@@ -65,12 +65,21 @@ func vCell(shape int) interface{} {
 		return OvsMap{GoMap: map[interface{}]interface{}{rt.String(): OvsSet{GoSet: []interface{}{UUID{GoUUID: rt.UUID()}, UUID{GoUUID: rt.UUID()}}}}}
 	case 15: // map whose value is a set of strings
 		return OvsMap{GoMap: map[interface{}]interface{}{rt.String(): OvsSet{GoSet: []interface{}{rt.String(), rt.String()}}}}
-	default: // map whose value is the empty set
+	case 16: // map whose value is the empty set
 		return OvsMap{GoMap: map[interface{}]interface{}{rt.String(): OvsSet{GoSet: []interface{}{}}}}
+	case 17: // a string of characters JSON has to escape (concrete: the byte-level encoders are interpreted)
+		return vAwkward
+	case 18: // a set holding such strings
+		return OvsSet{GoSet: []interface{}{vAwkward, "plain"}}
+	default: // a map holding such strings
+		return OvsMap{GoMap: map[interface{}]interface{}{vAwkward: vAwkward}}
 	}
 }
 
-const vCellShapes = 17
+// vAwkward: bell, vertical tab, SOH, ESC, DEL, quote, backslash, newline, a non-BMP rune, HTML characters.
+const vAwkward = "\a\v\x01\x1b\x7f\"\\\n\U000e0001<&>"
+
+const vCellShapes = 20
 
 // vRowShapes bounds the cell shapes used inside rows of composite values (entries narrow it for the quick tier).
 var vRowShapes = vCellShapes
